@@ -101,24 +101,13 @@ fn edit(xml: &str, nodes: &[NodeInfo], f: &str, n: usize) -> Option<((usize, usi
       let between = &xml[nd.range.1..md.range.0];
       Some(((nd.range.0, md.range.1), format!("{}{}{}", &xml[md.range.0..md.range.1], between, whole)))
     }
-    "missing" | "self" | "other" | "ancestor" => {
+    "missing" | "self" | "other" | "ancestor" | "selfpad" | "ancestorpad" => {
       let is_href = nd.name == "href";
+      let pad = |s: String| if f.ends_with("pad") { format!("\n  {} \n", s) } else { s };
       let new = match f {
         "missing" => (if is_href { "#_no_such_element_" } else { "tNoSuchType" }).to_string(),
-        "self" => {
-          if is_href {
-            format!("#{}", nd.own_id)
-          } else {
-            nd.own_name.clone()
-          }
-        }
-        "ancestor" => {
-          if is_href {
-            format!("#{}", nd.top_id)
-          } else {
-            nd.top_name.clone()
-          }
-        }
+        "self" | "selfpad" => pad(if is_href { format!("#{}", nd.own_id) } else { nd.own_name.clone() }),
+        "ancestor" | "ancestorpad" => pad(if is_href { format!("#{}", nd.top_id) } else { nd.top_name.clone() }),
         _ => {
           // the target of the next reference of the same kind (wrapping around)
           let same: Vec<&NodeInfo> = nodes.iter().filter(|o| o.is_ref && (o.name == "href") == is_href).collect();
@@ -306,6 +295,15 @@ fn load_models() -> Vec<Model> {
     let names = invocable_names(&nodes, &xml);
     models.push(Model { path: "generated/c12_nested_types.dmn".to_string(), xml, nodes, ctxs, names });
   }
+  // a generated model: one decision table per hit policy and aggregator (allowed input values, output values, default
+  // entries), a table with two output components, a knowledge model whose logic is a collect-sum table
+  {
+    let xml = include_str!("../../data/c12_tables.dmn").to_string();
+    let nodes = dump(&xml).unwrap_or_else(|| tool_error("c12_tables.dmn is not well formed"));
+    let ctxs = vec![r#"{Age: 10, Kind: "a"}"#.to_string(), r#"{Age: 40, Kind: "b"}"#.to_string(), r#"{Age: 70, Kind: "z"}"#.to_string(), "{}".to_string()];
+    let names = invocable_names(&nodes, &xml);
+    models.push(Model { path: "generated/c12_tables.dmn".to_string(), xml, nodes, ctxs, names });
+  }
   for f in files {
     let xml = std::fs::read_to_string(&f).unwrap_or_default();
     if let Some(nodes) = dump(&xml) {
@@ -468,7 +466,7 @@ pub fn check(mut ctx: Ctx, replay: Option<J>) -> ! {
       }
     }
     names.truncate(12);
-    let retarget = r["ops"].as_array().map_or(false, |a| a.iter().any(|o| ["missing", "self", "other", "ancestor"].contains(&o["f"].as_str().unwrap_or(""))));
+    let retarget = r["ops"].as_array().map_or(false, |a| a.iter().any(|o| ["missing", "self", "other", "ancestor", "selfpad", "ancestorpad"].contains(&o["f"].as_str().unwrap_or(""))));
     json!({"xml": t, "ctxs": model.map(|m| m.ctxs.clone()).unwrap_or_else(|| vec!["{}".to_string()]), "names": names, "count": count, "repeats": if retarget { 6 } else { 1 }})
   };
   let results = {
